@@ -305,6 +305,12 @@ func (c *Ctx) dischargeSlice(sl *ssa.Slice, x, lo, hi ssa.Value) Result {
 		if ex, ok := hi.(*ssa.Extract); ok && ex.Index == 0 {
 			if call, ok := ex.Tuple.(*ssa.Call); ok {
 				name := c.P.CalleeName(call)
+				if name == "io.ReadFull" || name == "io.ReadAtLeast" {
+					// documented: returns the number of bytes copied into buf, 0 <= n <= len(buf)
+					if len(call.Call.Args) >= 2 && c.Equiv(call.Call.Args[1], x) {
+						return Result{true, "read-postcondition", "n returned by " + name + "(r, buf) satisfies 0 <= n <= len(buf)"}
+					}
+				}
 				if strings.HasSuffix(name, ".Read") {
 					args := core.Args(call)
 					if len(args) >= 2 && c.Equiv(args[len(args)-1], x) {
